@@ -298,7 +298,8 @@ fn finish(id: &str, cfg: &Cfg, acc: &Acc, meta: &Meta, wall: f64) -> i32 {
     if !unlisted.is_empty() || unlisted_count > 0 {
         let rdir = format!("{}/replays", cfg.root);
         let _ = std::fs::create_dir_all(&rdir);
-        for (k, v) in unlisted.iter().enumerate().take(10) {
+        let max_print = std::env::var("VERIF_MAX_REPORT").ok().and_then(|s| s.parse().ok()).unwrap_or(10usize);
+        for (k, v) in unlisted.iter().enumerate().take(max_print) {
             let path = format!("{}/{}-{}-{}-{}.json", rdir, id, cfg.tier.name(), cfg.seed, k);
             let j = J::obj()
                 .set("property", id)
